@@ -1,7 +1,723 @@
-(* Proofs/StrFns_proofs.v — lemmas about Model/StrFns.v *)
+(* Proofs/StrFns_proofs.v — lemmas about Model/StrFns.v (property C18). *)
 From RJ Require Import Base.Outcome Base.F64 Model.StrFns.
-From Coq Require Import Lia.
-Local Open Scope N_scope.
+From Coq Require Import Lia List Floats.SpecFloat.
+Import ListNotations.
 
-Lemma length_counts_cps : forall s, std_length (VStr s) = Ok (VNum (f_of_N (N.of_nat (length s)))).
+Arguments N.add : simpl never.
+Arguments N.sub : simpl never.
+Arguments N.mul : simpl never.
+Arguments N.min : simpl never.
+Arguments N.max : simpl never.
+Arguments N.of_nat : simpl never.
+
+(* ------------------------------------------------------------------ *)
+(* prefixes and matches                                                 *)
+
+Lemma is_prefix_app p r : is_prefix p (p ++ r) = true.
+Proof. induction p as [|a p IH]; simpl; auto. rewrite N.eqb_refl. exact IH. Qed.
+
+Lemma is_prefix_true p s : is_prefix p s = true -> s = p ++ skipn (length p) s.
+Proof.
+  revert s; induction p as [|a p IH]; intros [|b s] H; simpl in *; auto; try discriminate.
+  apply andb_true_iff in H as [H1 H2]. apply N.eqb_eq in H1. subst. f_equal. auto.
+Qed.
+
+Lemma is_prefix_iff p s : is_prefix p s = true <-> exists r, s = p ++ r.
+Proof.
+  split.
+  - intros H. eexists. apply is_prefix_true. exact H.
+  - intros [r ->]. apply is_prefix_app.
+Qed.
+
+Lemma is_prefix_nil_r p : p <> [] -> is_prefix p [] = false.
+Proof. destruct p; [congruence|reflexivity]. Qed.
+
+(* p occurs in s at character index i *)
+Definition occurs_at (p s : str) (i : nat) : bool := is_prefix p (skipn i s).
+
+Lemma occurs_at_iff p s i : p <> [] ->
+  occurs_at p s i = true <-> exists b a, s = b ++ p ++ a /\ length b = i.
+Proof.
+  intros Hp. unfold occurs_at. split.
+  - intros H. apply is_prefix_iff in H as [r Hr].
+    exists (firstn i s), r. split.
+    + rewrite <- Hr. symmetry. apply firstn_skipn.
+    + apply firstn_length_le.
+      destruct (Nat.le_gt_cases i (length s)) as [Hle|Hgt]; auto.
+      rewrite skipn_all2 in Hr by lia. destruct p; [congruence|discriminate].
+  - intros (b & a & -> & <-).
+    rewrite skipn_app, skipn_all, Nat.sub_diag. simpl. apply is_prefix_app.
+Qed.
+
+(* ------------------------------------------------------------------ *)
+(* str::find and the first / last match                                *)
+
+Lemma str_find_none p s : str_find p s = None -> forall i, occurs_at p s i = false.
+Proof.
+  unfold occurs_at. induction s as [|c r IH]; simpl; intros H i.
+  - destruct (is_prefix p []) eqn:E; [discriminate|]. rewrite skipn_nil. exact E.
+  - destruct (is_prefix p (c :: r)) eqn:E; [discriminate|].
+    destruct (str_find p r) eqn:E2; [discriminate|].
+    destruct i as [|j]; simpl; auto.
+Qed.
+
+Lemma str_find_none_intro p s :
+  (forall i, (i <= length s)%nat -> occurs_at p s i = false) -> str_find p s = None.
+Proof.
+  unfold occurs_at. induction s as [|c r IH]; simpl; intros H.
+  - specialize (H O (Nat.le_refl _)). simpl in H. rewrite H. reflexivity.
+  - pose proof (H O (Nat.le_0_l _)) as H0. simpl in H0. rewrite H0.
+    rewrite IH; auto. intros i Hi. apply (H (S i)). lia.
+Qed.
+
+Lemma str_find_some p s i : str_find p s = Some i ->
+  occurs_at p s i = true /\ forall j, (j < i)%nat -> occurs_at p s j = false.
+Proof.
+  unfold occurs_at. revert i. induction s as [|c r IH]; simpl; intros i H.
+  - destruct (is_prefix p []) eqn:E; [|discriminate]. inversion H; subst. simpl. split; auto. intros; lia.
+  - destruct (is_prefix p (c :: r)) eqn:E.
+    + inversion H; subst. simpl. split; auto. intros; lia.
+    + destruct (str_find p r) as [k|] eqn:E2; [|discriminate]. inversion H; subst.
+      destruct (IH k eq_refl) as [I1 I2]. split; simpl; auto.
+      intros [|j] Hj; simpl; auto. apply I2. lia.
+Qed.
+
+Lemma split_first_none_iff p s : split_first p s = None <-> str_find p s = None.
+Proof.
+  induction s as [|c r IH]; simpl.
+  - destruct (is_prefix p []); split; congruence.
+  - destruct (is_prefix p (c :: r)); [split; congruence|].
+    destruct (split_first p r) as [[b a]|], (str_find p r); split; try congruence.
+    + intros _. destruct IH as [_ IH]. specialize (IH eq_refl). discriminate.
+    + intros _. destruct IH as [IH _]. specialize (IH eq_refl). discriminate.
+Qed.
+
+Lemma split_first_sound p s b a : split_first p s = Some (b, a) -> s = b ++ p ++ a.
+Proof.
+  revert b a; induction s as [|c r IH]; intros b a H; simpl in H.
+  - destruct (is_prefix p []) eqn:E; [|discriminate]. inversion H; subst.
+    apply is_prefix_true in E. exact E.
+  - destruct (is_prefix p (c :: r)) eqn:E.
+    + inversion H; subst. apply is_prefix_true in E. exact E.
+    + destruct (split_first p r) as [[b' a']|] eqn:E2; [|discriminate]. inversion H; subst.
+      simpl. f_equal. apply IH. reflexivity.
+Qed.
+
+Lemma split_first_minimal p s b a : split_first p s = Some (b, a) ->
+  forall i, (i < length b)%nat -> occurs_at p s i = false.
+Proof.
+  unfold occurs_at. revert b a; induction s as [|c r IH]; intros b a H i Hi; simpl in H.
+  - destruct (is_prefix p []); [|discriminate]. inversion H; subst. simpl in Hi. lia.
+  - destruct (is_prefix p (c :: r)) eqn:E.
+    + inversion H; subst. simpl in Hi. lia.
+    + destruct (split_first p r) as [[b' a']|] eqn:E2; [|discriminate]. inversion H; subst.
+      destruct i as [|j]; simpl; auto. eapply IH; eauto. simpl in Hi. lia.
+Qed.
+
+(* the first match is THE decomposition with the shortest "before" *)
+Lemma split_first_spec p s b a : p <> [] -> split_first p s = Some (b, a) ->
+  s = b ++ p ++ a /\ forall b' a', s = b' ++ p ++ a' -> (length b <= length b')%nat.
+Proof.
+  intros Hp H. split; [apply split_first_sound; exact H|].
+  intros b' a' Hs.
+  destruct (Nat.le_gt_cases (length b) (length b')) as [|Hlt]; auto.
+  pose proof (split_first_minimal _ _ _ _ H _ Hlt) as Hno.
+  assert (occurs_at p s (length b') = true) as Hyes
+    by (apply occurs_at_iff; auto; exists b', a'; auto).
+  congruence.
+Qed.
+
+Lemma split_first_complete p s b' a' : s = b' ++ p ++ a' -> exists b a, split_first p s = Some (b, a).
+Proof.
+  intros Hs. destruct (split_first p s) as [[b a]|] eqn:E; eauto.
+  apply split_first_none_iff in E. pose proof (str_find_none _ _ E (length b')) as H.
+  unfold occurs_at in H. subst s. rewrite skipn_app, skipn_all, Nat.sub_diag in H. simpl in H.
+  rewrite is_prefix_app in H. discriminate.
+Qed.
+
+Lemma split_first_shorter p s b a : p <> [] -> split_first p s = Some (b, a) ->
+  (length a < length s)%nat.
+Proof.
+  intros Hp H. apply split_first_sound in H. subst s. rewrite !app_length.
+  destruct p; [congruence|simpl; lia].
+Qed.
+
+(* no match lies inside the text before the first match *)
+Lemma split_first_before_clean p s b a : p <> [] -> split_first p s = Some (b, a) ->
+  str_find p b = None.
+Proof.
+  intros Hp H. apply str_find_none_intro. intros i Hi.
+  destruct (occurs_at p b i) eqn:E; auto. exfalso.
+  apply occurs_at_iff in E as (x & y & Hb & Hx); auto.
+  pose proof (split_first_sound _ _ _ _ H) as Hs.
+  assert (occurs_at p s i = true) as Hyes.
+  { apply occurs_at_iff; auto. exists x, (y ++ p ++ a). split; auto.
+    rewrite Hs, Hb, <- !app_assoc. reflexivity. }
+  assert (i < length b)%nat as Hlt.
+  { rewrite Hb, !app_length. destruct p; [congruence|simpl; lia]. }
+  rewrite (split_first_minimal _ _ _ _ H _ Hlt) in Hyes. discriminate.
+Qed.
+
+(* ---- last match ---- *)
+
+Lemma rsplit_first_sound p s b a : rsplit_first p s = Some (b, a) -> s = b ++ p ++ a.
+Proof.
+  revert b a; induction s as [|c r IH]; intros b a H; simpl in H.
+  - destruct (is_prefix p []) eqn:E; [|discriminate]. inversion H; subst.
+    apply is_prefix_true in E. simpl in *. rewrite skipn_nil in E. exact E.
+  - destruct (rsplit_first p r) as [[b' a']|] eqn:E2.
+    + inversion H; subst. simpl. f_equal. apply IH. reflexivity.
+    + destruct (is_prefix p (c :: r)) eqn:E; [|discriminate]. inversion H; subst.
+      apply is_prefix_true in E. exact E.
+Qed.
+
+Lemma rsplit_first_none p s : rsplit_first p s = None -> forall i, occurs_at p s i = false.
+Proof.
+  unfold occurs_at. induction s as [|c r IH]; simpl; intros H i.
+  - destruct (is_prefix p []) eqn:E; [discriminate|]. rewrite skipn_nil. exact E.
+  - destruct (rsplit_first p r) as [[b a]|] eqn:E2; [discriminate|].
+    destruct (is_prefix p (c :: r)) eqn:E; [discriminate|].
+    destruct i as [|j]; simpl; auto.
+Qed.
+
+Lemma rsplit_first_maximal p s b a : p <> [] -> rsplit_first p s = Some (b, a) ->
+  forall i, (length b < i)%nat -> occurs_at p s i = false.
+Proof.
+  intros Hp. unfold occurs_at. revert b a; induction s as [|c r IH]; intros b a H i Hi; simpl in H.
+  - rewrite skipn_nil. apply is_prefix_nil_r. exact Hp.
+  - destruct (rsplit_first p r) as [[b' a']|] eqn:E2.
+    + inversion H; subst. destruct i as [|j]; [lia|]. simpl. eapply IH; eauto. simpl in Hi. lia.
+    + destruct (is_prefix p (c :: r)) eqn:E; [|discriminate]. inversion H; subst.
+      destruct i as [|j]; [simpl in Hi; lia|]. simpl.
+      apply (rsplit_first_none _ _ E2 j).
+Qed.
+
+(* the last match is THE decomposition with the longest "before" *)
+Lemma rsplit_first_spec p s b a : p <> [] -> rsplit_first p s = Some (b, a) ->
+  s = b ++ p ++ a /\ forall b' a', s = b' ++ p ++ a' -> (length b' <= length b)%nat.
+Proof.
+  intros Hp H. split; [apply rsplit_first_sound; exact H|].
+  intros b' a' Hs.
+  destruct (Nat.le_gt_cases (length b') (length b)) as [|Hlt]; auto.
+  pose proof (rsplit_first_maximal _ _ _ _ Hp H _ Hlt) as Hno.
+  assert (occurs_at p s (length b') = true) as Hyes
+    by (apply occurs_at_iff; auto; exists b', a'; auto).
+  congruence.
+Qed.
+
+Lemma rsplit_first_shorter p s b a : p <> [] -> rsplit_first p s = Some (b, a) ->
+  (length b < length s)%nat.
+Proof.
+  intros Hp H. apply rsplit_first_sound in H. subst s. rewrite !app_length.
+  destruct p; [congruence|simpl; lia].
+Qed.
+
+(* no match lies inside the text after the last match *)
+Lemma rsplit_first_after_clean p s b a : p <> [] -> rsplit_first p s = Some (b, a) ->
+  str_find p a = None.
+Proof.
+  intros Hp H. apply str_find_none_intro. intros i Hi.
+  destruct (occurs_at p a i) eqn:E; auto. exfalso.
+  apply occurs_at_iff in E as (x & y & Ha & Hx); auto.
+  pose proof (rsplit_first_sound _ _ _ _ H) as Hs.
+  assert (occurs_at p s (length b + length p + i) = true) as Hyes.
+  { apply occurs_at_iff; auto. exists (b ++ p ++ x), y. split.
+    - rewrite Hs, Ha, <- !app_assoc. reflexivity.
+    - rewrite !app_length. lia. }
+  rewrite (rsplit_first_maximal _ _ _ _ Hp H) in Hyes; [discriminate|].
+  destruct p; [congruence|simpl; lia].
+Qed.
+
+Lemma rsplit_first_none_find p s : rsplit_first p s = None -> str_find p s = None.
+Proof. intros H. apply str_find_none_intro. intros i _. apply rsplit_first_none. exact H. Qed.
+
+(* ------------------------------------------------------------------ *)
+(* join                                                                *)
+
+Lemma join_cons sep a r : r <> [] -> join sep (a :: r) = a ++ sep ++ join sep r.
+Proof. destruct r; [congruence|reflexivity]. Qed.
+
+Lemma join_single sep a : join sep [a] = a.
 Proof. reflexivity. Qed.
+
+(* ------------------------------------------------------------------ *)
+(* str::split as a derivation, independent of fuel                     *)
+
+Inductive Split (p : str) : str -> list str -> Prop :=
+| Split_last s : split_first p s = None -> Split p s [s]
+| Split_cons s b a l : split_first p s = Some (b, a) -> Split p a l -> Split p s (b :: l).
+
+Lemma split_fuel_Split p fuel s l : split_fuel fuel p s = Ok l -> Split p s l.
+Proof.
+  revert s l; induction fuel as [|f IH]; intros s l H; simpl in H; [discriminate|].
+  destruct (split_first p s) as [[b a]|] eqn:E.
+  - destruct (split_fuel f p a) as [rest| | |] eqn:R; simpl in H; try discriminate.
+    inversion H; subst. eapply Split_cons; eauto.
+  - inversion H; subst. apply Split_last. exact E.
+Qed.
+
+Lemma Split_split_fuel p : p <> [] -> forall s l, Split p s l ->
+  forall fuel, (length s < fuel)%nat -> split_fuel fuel p s = Ok l.
+Proof.
+  intros Hp s l HS. induction HS as [s E|s b a l E HS IH]; intros fuel Hf;
+    (destruct fuel as [|f]; [lia|]); simpl; rewrite E; auto.
+  rewrite IH; auto. pose proof (split_first_shorter _ _ _ _ Hp E). lia.
+Qed.
+
+Lemma Split_exists p : p <> [] -> forall s, exists l, Split p s l.
+Proof.
+  intros Hp s. remember (length s) as n eqn:Hn. revert s Hn.
+  induction n as [n IH] using lt_wf_ind. intros s Hn.
+  destruct (split_first p s) as [[b a]|] eqn:E.
+  - pose proof (split_first_shorter _ _ _ _ Hp E) as Hlt.
+    destruct (IH (length a) ltac:(lia) a eq_refl) as [l Hl].
+    exists (b :: l). eapply Split_cons; eauto.
+  - exists [s]. apply Split_last. exact E.
+Qed.
+
+Lemma Split_det p s l1 l2 : Split p s l1 -> Split p s l2 -> l1 = l2.
+Proof.
+  intros H1. revert l2. induction H1 as [s E|s b a l E H1 IH]; intros l2 H2; inversion H2; subst; try congruence.
+  rewrite E in H. inversion H; subst. f_equal. auto.
+Qed.
+
+Lemma Split_nonempty p s l : Split p s l -> l <> [].
+Proof. intros H; inversion H; congruence. Qed.
+
+Lemma Split_join p s l : Split p s l -> join p l = s.
+Proof.
+  induction 1 as [s E|s b a l E HS IH]; [reflexivity|].
+  rewrite join_cons by (eapply Split_nonempty; eauto).
+  rewrite IH. symmetry. apply split_first_sound. exact E.
+Qed.
+
+Lemma Split_clean p s l : p <> [] -> Split p s l -> Forall (fun piece => str_find p piece = None) l.
+Proof.
+  intros Hp. induction 1 as [s E|s b a l E HS IH].
+  - constructor; [|constructor]. apply split_first_none_iff. exact E.
+  - constructor; auto. eapply split_first_before_clean; eauto.
+Qed.
+
+Lemma split_total s p : p <> [] -> exists l, StrFns.split s p = Ok l /\ Split p s l.
+Proof.
+  intros Hp. destruct (Split_exists p Hp s) as [l Hl]. exists l. split; auto.
+  unfold StrFns.split. apply Split_split_fuel; auto.
+Qed.
+
+Lemma join_split s p l : p <> [] -> StrFns.split s p = Ok l -> join p l = s.
+Proof. intros _ H. apply Split_join. eapply split_fuel_Split. exact H. Qed.
+
+Lemma split_no_sep_inside s p l : p <> [] -> StrFns.split s p = Ok l ->
+  Forall (fun piece => forall i, occurs_at p piece i = false) l.
+Proof.
+  intros Hp H. apply split_fuel_Split in H. apply (Split_clean _ _ _ Hp) in H.
+  eapply Forall_impl; [|exact H]. intros piece Hn. apply str_find_none. exact Hn.
+Qed.
+
+(* ------------------------------------------------------------------ *)
+(* splitn = the first n pieces of split, the rest re-joined            *)
+
+Lemma splitn_fuel_S f n p s : splitn_fuel (S f) n p s =
+  if (n =? 0)%N then Ok [] else if (n =? 1)%N then Ok [s]
+  else match split_first p s with
+       | None => Ok [s]
+       | Some (b, a) => obind (splitn_fuel f (n - 1) p a) (fun rest => Ok (b :: rest))
+       end.
+Proof. reflexivity. Qed.
+
+Lemma rsplitn_fuel_S f n p s : rsplitn_fuel (S f) n p s =
+  if (n =? 0)%N then Ok [] else if (n =? 1)%N then Ok [s]
+  else match rsplit_first p s with
+       | None => Ok [s]
+       | Some (b, a) => obind (rsplitn_fuel f (n - 1) p b) (fun rest => Ok (a :: rest))
+       end.
+Proof. reflexivity. Qed.
+
+Lemma N_of_nat_S_neq0 k : (N.of_nat (S k) =? 0)%N = false.
+Proof. apply N.eqb_neq. lia. Qed.
+
+Lemma splitn_Split p : p <> [] -> forall s ps, Split p s ps ->
+  forall k fuel, (length s < fuel)%nat ->
+  splitn_fuel fuel (N.of_nat (S k)) p s =
+    Ok (if (length ps <=? S k)%nat then ps else firstn k ps ++ [join p (skipn k ps)]).
+Proof.
+  intros Hp s ps HS. induction HS as [s E|s b a l E HS IH]; intros k fuel Hf;
+    (destruct fuel as [|f]; [lia|]); rewrite splitn_fuel_S, N_of_nat_S_neq0.
+  - destruct (N.of_nat (S k) =? 1)%N; [reflexivity|]. rewrite E. reflexivity.
+  - pose proof (Split_nonempty _ _ _ HS) as Hne.
+    assert (length l <> 0)%nat as Hl by (destruct l; [congruence|simpl; lia]).
+    destruct k as [|k'].
+    + replace (N.of_nat 1 =? 1)%N with true by reflexivity.
+      replace (length (b :: l) <=? 1)%nat with false by (symmetry; apply Nat.leb_gt; simpl; lia).
+      simpl. f_equal. f_equal. symmetry. apply (Split_join p s (b :: l)). eapply Split_cons; eauto.
+    + replace (N.of_nat (S (S k')) =? 1)%N with false by (symmetry; apply N.eqb_neq; lia).
+      rewrite E. replace (N.of_nat (S (S k')) - 1)%N with (N.of_nat (S k')) by lia.
+      rewrite IH by (pose proof (split_first_shorter _ _ _ _ Hp E); lia).
+      simpl obind. f_equal.
+      change (length (b :: l) <=? S (S k'))%nat with (length l <=? S k')%nat.
+      destruct (length l <=? S k')%nat; reflexivity.
+Qed.
+
+(* ---- and from the right ---- *)
+
+Inductive RSplit (p : str) : str -> list str -> Prop :=      (* pieces listed right to left *)
+| RSplit_last s : rsplit_first p s = None -> RSplit p s [s]
+| RSplit_cons s b a l : rsplit_first p s = Some (b, a) -> RSplit p b l -> RSplit p s (a :: l).
+
+Lemma RSplit_exists p : p <> [] -> forall s, exists l, RSplit p s l.
+Proof.
+  intros Hp s. remember (length s) as n eqn:Hn. revert s Hn.
+  induction n as [n IH] using lt_wf_ind. intros s Hn.
+  destruct (rsplit_first p s) as [[b a]|] eqn:E.
+  - pose proof (rsplit_first_shorter _ _ _ _ Hp E) as Hlt.
+    destruct (IH (length b) ltac:(lia) b eq_refl) as [l Hl].
+    exists (a :: l). eapply RSplit_cons; eauto.
+  - exists [s]. apply RSplit_last. exact E.
+Qed.
+
+Lemma RSplit_det p s l1 l2 : RSplit p s l1 -> RSplit p s l2 -> l1 = l2.
+Proof.
+  intros H1. revert l2. induction H1 as [s E|s b a l E H1 IH]; intros l2 H2; inversion H2; subst; try congruence.
+  rewrite E in H. inversion H; subst. f_equal. auto.
+Qed.
+
+Lemma RSplit_nonempty p s l : RSplit p s l -> l <> [].
+Proof. intros H; inversion H; congruence. Qed.
+
+Lemma join_snoc sep l a : l <> [] -> join sep (l ++ [a]) = join sep l ++ sep ++ a.
+Proof.
+  induction l as [|x l IH]; [congruence|]. intros _.
+  destruct l as [|y l].
+  - reflexivity.
+  - change ((x :: y :: l) ++ [a]) with (x :: (y :: l) ++ [a]).
+    rewrite join_cons by (destruct l; discriminate).
+    rewrite IH by discriminate. rewrite (join_cons sep x (y :: l)) by discriminate.
+    rewrite <- !app_assoc. reflexivity.
+Qed.
+
+Lemma RSplit_join p s l : RSplit p s l -> join p (rev l) = s.
+Proof.
+  induction 1 as [s E|s b a l E HS IH]; [reflexivity|].
+  simpl rev. rewrite join_snoc.
+  - rewrite IH. symmetry. apply rsplit_first_sound. exact E.
+  - intros Hr. apply (RSplit_nonempty _ _ _ HS). destruct l; [reflexivity|].
+    simpl in Hr. destruct (rev l); discriminate.
+Qed.
+
+Lemma RSplit_clean p s l : p <> [] -> RSplit p s l -> Forall (fun piece => str_find p piece = None) l.
+Proof.
+  intros Hp. induction 1 as [s E|s b a l E HS IH].
+  - constructor; [|constructor]. apply rsplit_first_none_find. exact E.
+  - constructor; auto. eapply rsplit_first_after_clean; eauto.
+Qed.
+
+Lemma rsplitn_RSplit p : p <> [] -> forall s qs, RSplit p s qs ->
+  forall k fuel, (length s < fuel)%nat ->
+  rsplitn_fuel fuel (N.of_nat (S k)) p s =
+    Ok (if (length qs <=? S k)%nat then qs else firstn k qs ++ [join p (rev (skipn k qs))]).
+Proof.
+  intros Hp s qs HS. induction HS as [s E|s b a l E HS IH]; intros k fuel Hf;
+    (destruct fuel as [|f]; [lia|]); rewrite rsplitn_fuel_S, N_of_nat_S_neq0.
+  - destruct (N.of_nat (S k) =? 1)%N; [reflexivity|]. rewrite E. reflexivity.
+  - pose proof (RSplit_nonempty _ _ _ HS) as Hne.
+    assert (length l <> 0)%nat as Hl by (destruct l; [congruence|simpl; lia]).
+    destruct k as [|k'].
+    + replace (N.of_nat 1 =? 1)%N with true by reflexivity.
+      replace (length (a :: l) <=? 1)%nat with false by (symmetry; apply Nat.leb_gt; simpl; lia).
+      simpl firstn. simpl skipn. simpl app. f_equal. f_equal. symmetry.
+      apply (RSplit_join p s (a :: l)). eapply RSplit_cons; eauto.
+    + replace (N.of_nat (S (S k')) =? 1)%N with false by (symmetry; apply N.eqb_neq; lia).
+      rewrite E. replace (N.of_nat (S (S k')) - 1)%N with (N.of_nat (S k')) by lia.
+      rewrite IH by (pose proof (rsplit_first_shorter _ _ _ _ Hp E); lia).
+      simpl obind. f_equal.
+      change (length (a :: l) <=? S (S k'))%nat with (length l <=? S k')%nat.
+      destruct (length l <=? S k')%nat; reflexivity.
+Qed.
+
+(* ------------------------------------------------------------------ *)
+(* splitLimit / splitLimitR at the code-point level                    *)
+
+(* all pieces from the right, listed left to right *)
+Definition rsplit_all_spec (p s : str) (qs : list str) : Prop := RSplit p s (rev qs).
+
+Lemma splitLimit_first_n s p ps k : p <> [] -> StrFns.split s p = Ok ps ->
+  split_limit_cps s p (Some (N.of_nat (S k))) =
+    Ok (if (length ps <=? S k)%nat then ps else firstn k ps ++ [join p (skipn k ps)]).
+Proof.
+  intros Hp H. apply split_fuel_Split in H. unfold split_limit_cps, splitn.
+  apply splitn_Split; auto.
+Qed.
+
+Lemma splitLimitR_last_n s p rs k : p <> [] -> RSplit p s rs ->
+  split_limit_r_cps s p (Some (N.of_nat (S k))) =
+    Ok (rev (if (length rs <=? S k)%nat then rs else firstn k rs ++ [join p (rev (skipn k rs))])).
+Proof.
+  intros Hp H. unfold split_limit_r_cps, rsplitn.
+  rewrite (rsplitn_RSplit p Hp s rs H k) by lia. reflexivity.
+Qed.
+
+(* whatever the limit (>= 1 piece), joining the pieces gives the string back *)
+Lemma join_app sep l1 l2 : l1 <> [] -> l2 <> [] ->
+  join sep (l1 ++ l2) = join sep l1 ++ sep ++ join sep l2.
+Proof.
+  intros H1 H2. induction l1 as [|x l1 IH]; [congruence|].
+  destruct l1 as [|y l1].
+  - simpl app. rewrite join_cons by exact H2. reflexivity.
+  - change ((x :: y :: l1) ++ l2) with (x :: (y :: l1) ++ l2).
+    rewrite join_cons by discriminate. rewrite IH by discriminate.
+    rewrite (join_cons sep x (y :: l1)) by discriminate. rewrite <- !app_assoc. reflexivity.
+Qed.
+
+Lemma join_firstn_rest sep ps k : (k < length ps)%nat ->
+  join sep (firstn k ps ++ [join sep (skipn k ps)]) = join sep ps.
+Proof.
+  intros Hk. destruct k as [|k]; [reflexivity|].
+  assert (firstn (S k) ps <> []) as H1 by (destruct ps; simpl in *; [lia|discriminate]).
+  assert (skipn (S k) ps <> []) as H2.
+  { intros E. pose proof (skipn_length (S k) ps) as L. rewrite E in L. simpl in L. lia. }
+  rewrite join_app by (auto; discriminate). simpl (join sep [_]).
+  rewrite <- join_app by auto. rewrite firstn_skipn. reflexivity.
+Qed.
+
+Lemma N_as_succ n : (1 <= n)%N -> n = N.of_nat (S (N.to_nat (n - 1))).
+Proof. lia. Qed.
+
+Lemma splitLimit_join s p n l : p <> [] -> (1 <= n)%N ->
+  split_limit_cps s p (Some n) = Ok l -> join p l = s.
+Proof.
+  intros Hp Hn H. destruct (split_total s p Hp) as (ps & Hps & HS).
+  rewrite (N_as_succ n Hn) in H. rewrite (splitLimit_first_n s p ps _ Hp Hps) in H.
+  inversion H; subst. clear H.
+  destruct (length ps <=? S (N.to_nat (n - 1)))%nat eqn:E.
+  - apply Split_join. exact HS.
+  - apply Nat.leb_gt in E. rewrite join_firstn_rest by lia. apply Split_join. exact HS.
+Qed.
+
+Lemma splitLimitR_join s p n l : p <> [] -> (1 <= n)%N ->
+  split_limit_r_cps s p (Some n) = Ok l -> join p l = s.
+Proof.
+  intros Hp Hn H. destruct (RSplit_exists p Hp s) as (rs & HS).
+  rewrite (N_as_succ n Hn) in H. rewrite (splitLimitR_last_n s p rs _ Hp HS) in H.
+  inversion H; subst. clear H.
+  destruct (length rs <=? S (N.to_nat (n - 1)))%nat eqn:E.
+  - apply RSplit_join. exact HS.
+  - apply Nat.leb_gt in E. set (k := N.to_nat (n - 1)) in *.
+    rewrite rev_app_distr. simpl rev. simpl app.
+    destruct k as [|k].
+    + simpl. apply RSplit_join. exact HS.
+    + assert (rev (firstn (S k) rs) <> []) as H1.
+      { destruct rs; simpl in *; [lia|]. intros E2. apply app_eq_nil in E2 as [_ E2]. discriminate. }
+      assert (rev (skipn (S k) rs) <> []) as H2.
+      { intros E2. apply (f_equal (@length _)) in E2. rewrite rev_length, skipn_length in E2. simpl in E2. lia. }
+      change (join p (rev (skipn (S k) rs)) :: rev (firstn (S k) rs))
+        with ([join p (rev (skipn (S k) rs))] ++ rev (firstn (S k) rs)).
+      rewrite join_app by (auto; discriminate). simpl (join p [_]).
+      rewrite <- join_app by auto. rewrite <- rev_app_distr, firstn_skipn.
+      apply RSplit_join. exact HS.
+Qed.
+
+(* ------------------------------------------------------------------ *)
+(* strReplace = join to (split from)                                   *)
+
+Lemma replace_Split from to : from <> [] -> forall s l, Split from s l ->
+  forall fuel, (length s < fuel)%nat -> replace_fuel fuel from to s = Ok (join to l).
+Proof.
+  intros Hp s l HS. induction HS as [s E|s b a l E HS IH]; intros fuel Hf;
+    (destruct fuel as [|f]; [lia|]); cbn [replace_fuel]; rewrite E; auto.
+  rewrite IH by (pose proof (split_first_shorter _ _ _ _ Hp E); lia). cbn [obind].
+  rewrite join_cons by (eapply Split_nonempty; eauto). reflexivity.
+Qed.
+
+Lemma strReplace_is_join_split s from to l : from <> [] -> StrFns.split s from = Ok l ->
+  str_replace s from to = Ok (join to l).
+Proof.
+  intros Hp H. apply split_fuel_Split in H. unfold str_replace.
+  destruct from as [|c from']; [congruence|]. apply replace_Split; auto.
+Qed.
+
+(* ------------------------------------------------------------------ *)
+(* findSubstr                                                          *)
+
+Definition all_matches (p s : str) : list nat := filter (occurs_at p s) (seq 0 (length s)).
+
+Lemma filter_map_comm {A B} (f : B -> bool) (g : A -> B) l :
+  filter f (map g l) = map g (filter (fun x => f (g x)) l).
+Proof. induction l as [|x l IH]; simpl; auto. destruct (f (g x)); simpl; rewrite IH; reflexivity. Qed.
+
+Lemma filter_none {A} (f : A -> bool) l : (forall x, In x l -> f x = false) -> filter f l = [].
+Proof.
+  induction l as [|x l IH]; simpl; intros H; auto.
+  rewrite (H x) by auto. apply IH. intros y Hy. apply H. auto.
+Qed.
+
+Lemma seq_as_map a m : seq a m = map (Nat.add a) (seq 0 m).
+Proof.
+  revert a; induction m as [|m IH]; intros a; simpl; auto.
+  rewrite Nat.add_0_r. f_equal. rewrite (IH (S a)), (IH 1), map_map.
+  apply map_ext. intros x. lia.
+Qed.
+
+Lemma skipn_add {A} a b (l : list A) : skipn (a + b) l = skipn b (skipn a l).
+Proof.
+  revert l; induction a as [|a IH]; intros l; simpl; auto.
+  destruct l; simpl; auto. rewrite skipn_nil. reflexivity.
+Qed.
+
+Lemma all_matches_step p s i : (i < length s)%nat ->
+  occurs_at p s i = true -> (forall j, (j < i)%nat -> occurs_at p s j = false) ->
+  all_matches p s = i :: map (Nat.add (S i)) (all_matches p (skipn (S i) s)).
+Proof.
+  intros Hi Hyes Hno. unfold all_matches.
+  assert (filter (occurs_at p s) (seq (S i) (length s - S i)) =
+          map (Nat.add (S i)) (filter (occurs_at p (skipn (S i) s)) (seq 0 (length (skipn (S i) s))))) as Htail.
+  { rewrite skipn_length. rewrite (seq_as_map (S i)), filter_map_comm. f_equal.
+    apply filter_ext. intros j. unfold occurs_at. rewrite skipn_add. reflexivity. }
+  rewrite <- Htail. clear Htail.
+  replace (length s) with (i + S (length s - S i))%nat at 1 by lia.
+  rewrite seq_app, filter_app. rewrite filter_none.
+  2:{ intros x Hx. apply in_seq in Hx. apply Hno. lia. }
+  rewrite Nat.add_0_l. cbn [seq filter app]. rewrite Hyes. reflexivity.
+Qed.
+
+Lemma byte_skip_0 s : byte_skip 0 s = Some s.
+Proof. destruct s; reflexivity. Qed.
+
+Lemma cp_utf8_len_pos c : (1 <= cp_utf8_len c)%N.
+Proof. unfold cp_utf8_len. destruct (c <? 128)%N, (c <? 2048)%N, (c <? 65536)%N; lia. Qed.
+
+Lemma byte_skip_first c r : byte_skip (cp_utf8_len c) (c :: r) = Some r.
+Proof.
+  simpl. pose proof (cp_utf8_len_pos c) as H.
+  replace (cp_utf8_len c =? 0)%N with false by (symmetry; apply N.eqb_neq; lia).
+  rewrite N.leb_refl, N.sub_diag. apply byte_skip_0.
+Qed.
+
+Lemma skipn_S_of {A} i (l : list A) d rest : skipn i l = d :: rest -> skipn (S i) l = rest.
+Proof.
+  intros H. replace (S i) with (i + 1)%nat by lia. rewrite skipn_add, H. reflexivity.
+Qed.
+
+Lemma find_loop_spec c0 pt : forall fuel rem idx, (length rem < fuel)%nat ->
+  find_substr_loop fuel (c0 :: pt) c0 rem idx =
+    Ok (map (fun i => (idx + N.of_nat i)%N) (all_matches (c0 :: pt) rem)).
+Proof.
+  set (pat := c0 :: pt).
+  induction fuel as [|f IH]; intros rem idx Hf; [lia|].
+  simpl find_substr_loop. destruct (str_find pat rem) as [i|] eqn:F.
+  - destruct (str_find_some _ _ _ F) as [Hyes Hno].
+    unfold occurs_at in Hyes. destruct (skipn i rem) as [|d rest] eqn:SK; [discriminate|].
+    assert (d = c0) as ->.
+    { simpl in Hyes. apply andb_true_iff in Hyes as [H1 _]. apply N.eqb_eq in H1. auto. }
+    assert (i < length rem)%nat as Hi.
+    { destruct (Nat.le_gt_cases (length rem) i); auto. rewrite skipn_all2 in SK by lia. discriminate. }
+    rewrite byte_skip_first.
+    pose proof (skipn_S_of _ _ _ _ SK) as SK'.
+    assert (length rest < f)%nat as Hr.
+    { rewrite <- SK', skipn_length. lia. }
+    rewrite (IH rest _ Hr). simpl obind.
+    rewrite (all_matches_step pat rem i Hi); [|unfold occurs_at; rewrite SK; exact Hyes|exact Hno].
+    rewrite SK'. simpl map. f_equal. f_equal. rewrite map_map. apply map_ext. intros j. lia.
+  - unfold all_matches. rewrite filter_none; [reflexivity|].
+    intros x _. apply str_find_none. exact F.
+Qed.
+
+Lemma findSubstr_spec pat s : pat <> [] ->
+  find_substr_cps pat s = Ok (map N.of_nat (all_matches pat s)).
+Proof.
+  intros Hp. destruct pat as [|c0 pt]; [congruence|]. unfold find_substr_cps.
+  rewrite find_loop_spec by lia. f_equal.
+Qed.
+
+Lemma findSubstr_in pat s l : pat <> [] -> find_substr_cps pat s = Ok l ->
+  forall k, In (N.of_nat k) l <-> ((k < length s)%nat /\ occurs_at pat s k = true).
+Proof.
+  intros Hp H k. rewrite (findSubstr_spec pat s Hp) in H. inversion H; subst. clear H.
+  rewrite in_map_iff. unfold all_matches. split.
+  - intros (x & Hx & Hin). apply Nat2N.inj in Hx. subst x. apply filter_In in Hin as [H1 H2].
+    apply in_seq in H1. split; [lia|exact H2].
+  - intros [H1 H2]. exists k. split; auto. apply filter_In. split; auto. apply in_seq. lia.
+Qed.
+
+(* ------------------------------------------------------------------ *)
+(* strip                                                               *)
+
+Definition listed (cs : str) (c : N) : Prop := memN c cs = true.
+
+Lemma lstrip_spec cs s : exists a, s = a ++ lstrip cs s /\ Forall (listed cs) a /\ (lstrip cs s = [] \/ exists c t, lstrip cs s = c :: t /\ memN c cs = false).
+Proof.
+  induction s as [|c r IH]; simpl.
+  - exists []. auto.
+  - destruct (memN c cs) eqn:E.
+    + destruct IH as (a & Ha & Hl & Hh). exists (c :: a). split; [simpl; f_equal; exact Ha|].
+      split; [constructor; auto|exact Hh].
+    + exists []. split; auto. split; auto. right. eauto.
+Qed.
+
+Lemma rstrip_spec cs s : exists b, s = rstrip cs s ++ b /\ Forall (listed cs) b /\ (rstrip cs s = [] \/ exists t c, rstrip cs s = t ++ [c] /\ memN c cs = false).
+Proof.
+  induction s as [|c r IH]; simpl.
+  - exists []. auto.
+  - destruct IH as (b & Hb & Hl & Hh). destruct (rstrip cs r) as [|x r'] eqn:R.
+    + destruct (memN c cs) eqn:E.
+      * exists (c :: b). simpl in Hb. subst r. split; [reflexivity|]. split; [constructor; auto|left; reflexivity].
+      * exists b. simpl in Hb. subst r. split; [reflexivity|]. split; [exact Hl|]. right. exists [], c. split; [reflexivity|exact E].
+    + exists b. split; [simpl; f_equal; exact Hb|]. split; auto. right.
+      destruct Hh as [Hh|(t & c' & Ht & Hc')]; [discriminate|].
+      exists (c :: t), c'. split; auto. simpl. f_equal. exact Ht.
+Qed.
+
+Lemma strip_decomposes cs s : exists a b, s = a ++ strip cs s ++ b /\
+  Forall (listed cs) a /\ Forall (listed cs) b /\
+  (strip cs s = [] \/
+   (exists c t, strip cs s = c :: t /\ memN c cs = false) /\
+   (exists t c, strip cs s = t ++ [c] /\ memN c cs = false)).
+Proof.
+  unfold strip. destruct (lstrip_spec cs s) as (a & Ha & Hla & Hha).
+  destruct (rstrip_spec cs (lstrip cs s)) as (b & Hb & Hlb & Hhb).
+  exists a, b. split; [rewrite <- Hb; exact Ha|]. split; auto. split; auto.
+  destruct Hhb as [E|(t & c & Ht & Hc)]; [left; exact E|]. right. split; [|eauto].
+  destruct Hha as [E|(c0 & t0 & Ht0 & Hc0)].
+  - rewrite E in Ht. simpl in Ht. destruct t; discriminate.
+  - rewrite Ht0 in *. destruct (rstrip cs (c0 :: t0)) as [|y r'] eqn:R.
+    + destruct t; discriminate.
+    + simpl in Hb. inversion Hb; subst. eauto.
+Qed.
+
+Lemma unlisted_after_listed cs a t a' x rest :
+  a ++ t = a' ++ x :: rest -> Forall (listed cs) a -> memN x cs = false ->
+  exists u, a' = a ++ u.
+Proof.
+  revert a'. induction a as [|c a IH]; intros a' H Hl Hx; [exists a'; reflexivity|].
+  inversion Hl as [|? ? Hc Hl']; subst. destruct a' as [|c' a'].
+  - simpl in H. inversion H; subst. unfold listed in Hc. congruence.
+  - simpl in H. inversion H; subst. destruct (IH a' H2 Hl' Hx) as [u ->]. exists u. reflexivity.
+Qed.
+
+(* any infix of s delimited by unlisted characters lies inside the stripped result:
+   the result is the longest such infix *)
+Lemma strip_maximal cs s a' r' b' x m m' y :
+  s = a' ++ r' ++ b' -> r' = x :: m -> r' = m' ++ [y] ->
+  memN x cs = false -> memN y cs = false ->
+  exists u v, strip cs s = u ++ r' ++ v.
+Proof.
+  intros Hs Hx Hy Ux Uy.
+  destruct (strip_decomposes cs s) as (a & b & Hd & Hla & Hlb & _).
+  (* left side *)
+  assert (exists u, a' = a ++ u) as [u ->].
+  { apply (unlisted_after_listed cs a (strip cs s ++ b) a' x (m ++ b')); auto.
+    rewrite <- Hd, Hs, Hx. reflexivity. }
+  (* right side, by reversal *)
+  assert (exists w, rev b' = rev b ++ w) as [w Hw].
+  { apply (unlisted_after_listed cs (rev b) (rev (a ++ strip cs s)) (rev b') y (rev ((a ++ u) ++ m'))).
+    - rewrite <- !rev_app_distr. change (y :: rev ((a ++ u) ++ m')) with (rev [y] ++ rev ((a ++ u) ++ m')).
+      rewrite <- !rev_app_distr. f_equal. rewrite <- !app_assoc. rewrite <- Hd, Hs, Hy.
+      rewrite <- !app_assoc. reflexivity.
+    - apply Forall_rev. exact Hlb.
+    - exact Uy. }
+  assert (b' = rev w ++ b) as ->.
+  { rewrite <- (rev_involutive b'), Hw, rev_app_distr, rev_involutive. reflexivity. }
+  exists u, (rev w). remember (strip cs s) as r eqn:Hr. clear Hr. rewrite Hs in Hd. rewrite <- !app_assoc in Hd.
+  apply app_inv_head in Hd.
+  replace (u ++ r' ++ rev w ++ b) with ((u ++ r' ++ rev w) ++ b) in Hd by (rewrite <- !app_assoc; reflexivity).
+  apply app_inv_tail in Hd. symmetry. exact Hd.
+Qed.
